@@ -71,6 +71,10 @@ def spec_arith(op, xs):
     f = {"+": operator.add, "-": operator.sub, "*": operator.mul, "/": operator.truediv}
     try:
         if op in f:
+            if op == "/" and any(x == 0 for x in (xs[1:] if len(xs) > 1 else xs)):
+                # all operands are exact here: an exact zero divisor is an error wherever it stands, also after an
+                # intermediate quotient has left the representable range
+                return ("err", "divZero")
             if len(xs) == 0:
                 return ("val", Fraction(0 if op == "+" else 1))
             if len(xs) == 1 and op in "-/":
